@@ -17,6 +17,14 @@ CLAIMED = {
         "in fv/grammar.py as specification.",
         "DESIGN.md §5 C01",
     ),
+    "C02": (
+        "bounded symbolic execution of the real scanners/regexes/reader step (AST->SMT, exact regex semantics) vs. the Fortran lexical DFA, decided by z3 (QF_BV)",
+        "For every line (every 1-3 line fragment) up to the stated length over an alphabet of quotes, `!`, `;`, `&`, blanks, letters: literal "
+        "tracking, `;` splitting, comment/doc-mark detection and one FortranReader.__next__ step agree with the Fortran lexical rules. "
+        "unsat per path/obligation = holds for all inputs within the bound; loops carry unwinding assertions; models are replayed on the real reader.",
+        "Trusted: z3 QF_BV, the RXA regex encoding (differentially validated against `re`), the SXM/DSE interpreters (validated by replay), the lexical DFA in fv/oracles.py.",
+        "DESIGN.md §5 C02",
+    ),
     "C09": (
         "SMT (z3 linear integer arithmetic) implication between template link conditions (Jinja AST) and page-creation conditions (Python AST)",
         "For every statically known internal URL in the real templates the enclosing template conditions imply the page-creation "
